@@ -250,6 +250,11 @@ package git
 //@ property C15: configKeyMatchesPrefix (*Repository).GetConfig
 // Reference names are taken as they are (whatever bytes they hold): C19.
 //@ property C19: ParseReference (*Repository).NewReferenceIter$1
+// ... and the name that reaches selection (C06), the tallies (C07) and the
+// descriptions (C08) is the name git printed, byte for byte
+//@ property C06: (*Repository).NewReferenceIter$1
+//@ property C07: (*Repository).NewReferenceIter$1
+//@ property C08: (*Repository).NewReferenceIter$1
 
 // ---------------------------------------------------------------- ref_filter.go (C06)
 // apply(f, r) is the meaning of a filter value: "f lets reference name r
